@@ -158,3 +158,26 @@ func (h *PESHdr) Encode(payload []byte, length int) []byte {
 
 // IsPESStart reports whether b begins with the packet_start_code_prefix.
 func IsPESStart(b []byte) bool { return len(b) >= 3 && b[0] == 0 && b[1] == 0 && b[2] == 1 }
+
+// TrickFromByte decodes a DSM trick mode byte per table 2-24 (fields not defined for the
+// control value stay zero).
+func TrickFromByte(b byte) *Trick {
+	t := &Trick{Ctl: b >> 5}
+	switch t.Ctl {
+	case 0, 3:
+		t.FieldID, t.Intra, t.FreqTrunc = b>>3&3, b>>2&1, b&3
+	case 1, 4:
+		t.Rep = b & 0x1f
+	case 2:
+		t.FieldID = b >> 3 & 3
+	}
+	return t
+}
+
+// OptHeaderIfAny returns the optional header bytes, or nil for stream ids that have none.
+func (h *PESHdr) OptHeaderIfAny() []byte {
+	if HasOptHeader(h.StreamID) {
+		return h.OptHeader()
+	}
+	return nil
+}
